@@ -72,6 +72,8 @@ type histIn struct {
 	Zero    bool       `json:"zero"` // service_mgr proposals use the ZeroPermission strategy
 	ZSwitch bool       `json:"zswitch"` // proposals of several modules are opened under the default strategy, then governance switches every module to ZeroPermission
 	Sep     bool       `json:"sep"` // further appchains whose ids contain separator characters: "org" ($ADMO), "org:chainB" ($ADMS), "org-chainB" ($ADMT), "org,chainB" ($ADMU), each of the last three with a service
+	ExAdmin bool       `json:"exadmin"` // four genesis governance admins plus $GOVN, $GOVM registered by vote; proposals $PX, $PY opened with both in the electorate; then $GOVN logged out (forbidden) and $GOVM frozen by approved role proposals
+	ExChain bool       `json:"exchain"` // appchain chainX registered with admins "$ADMX,$EXADM" and a service svcX; then an approved UpdateAppchain drops $EXADM from the admin list
 	Surface bool       `json:"surface"`
 	Calls   []callSpec `json:"calls"`
 }
@@ -172,6 +174,9 @@ func buildWorld(in *histIn) (w *world, err error) {
 		}
 	}()
 	opts := hx.ChainOpts{NumAdmins: 2, EnableAudit: in.Audit, Quiet: true}
+	if in.ExAdmin {
+		opts.NumAdmins = 4
+	}
 	if in.Zero {
 		for _, m := range []string{repo.AppchainMgr, repo.RuleMgr, repo.NodeMgr, repo.ServiceMgr, repo.RoleMgr, repo.ProposalStrategyMgr, repo.DappMgr} {
 			st := &repo.Strategy{Module: m, Typ: repo.SuperMajorityApprove, Extra: repo.DefaultSimpleMajorityExpression}
@@ -250,6 +255,12 @@ func buildWorld(in *histIn) (w *world, err error) {
 	}
 	if in.Sep && !in.Zero {
 		w.sep()
+	}
+	if in.ExChain && !in.Zero {
+		w.exchain()
+	}
+	if in.ExAdmin && !in.Zero {
+		w.exadmin()
 	}
 	return w, nil
 }
@@ -699,6 +710,97 @@ var roleNames = []string{"$OUT", "$ADMB", "$GOV1", "$NODE", "$ADMA"}
 // sep: appchain ids are free-form (only "" is refused), several places split ids at ':' '-' ','.  Registered through
 // the real flow: "org" ($ADMO) and three appchains whose id starts with "org" + a separator, each with one service.
 var sepChains = []struct{ id, adm, svc string }{{"org", "$ADMO", ""}, {"org:chainB", "$ADMS", "svc2"}, {"org-chainB", "$ADMT", "svc-2"}, {"org,chainB", "$ADMU", "svc2"}}
+
+// decideBy lets the named admins vote until the proposal is closed.
+func (w *world) decideBy(pid string, approve bool, voters ...string) {
+	b := "reject"
+	if approve {
+		b = "approve"
+	}
+	for _, name := range voters {
+		ok, ret := w.c.View(constant.GovernanceContractAddr.Address(), "GetProposal", pb.String(pid))
+		if !ok {
+			panic("GetProposal " + pid + ": " + string(ret))
+		}
+		var p contracts.Proposal
+		_ = json.Unmarshal(ret, &p)
+		if p.Status != contracts.PROPOSED {
+			return
+		}
+		w.must("vote "+pid, w.exec(name, constant.GovernanceContractAddr.Address(), "Vote", pb.String(pid), pb.String(b), pb.String("r")))
+	}
+	ok, ret := w.c.View(constant.GovernanceContractAddr.Address(), "GetProposal", pb.String(pid))
+	var p contracts.Proposal
+	_ = json.Unmarshal(ret, &p)
+	if !ok || p.Status == contracts.PROPOSED {
+		panic("proposal " + pid + " still open after the votes of " + strings.Join(voters, ","))
+	}
+}
+
+func (w *world) roleStatus(name string) string {
+	ok, ret := w.c.View(constant.RoleContractAddr.Address(), "GetRoleInfoById", pb.String(w.addr(name)))
+	if !ok {
+		return "none"
+	}
+	role := &contracts.Role{}
+	_ = json.Unmarshal(ret, role)
+	return string(role.Status)
+}
+
+// exadmin: two further governance admins $GOVN, $GOVM are registered (genesis admins are super admins and cannot be
+// logged out); $PX (freeze of chainA) and $PY (freeze of chainA:svcA) are opened while both are available - they are in
+// the electorate -; then $GOVN is logged out and $GOVM frozen, each voted through by the four genesis admins.
+func (w *world) exadmin() {
+	ro := constant.RoleContractAddr.Address()
+	if w.extra == nil {
+		w.extra = map[string]string{}
+	}
+	gen := []string{"$GOV0", "$GOV1", "$GOV2", "$GOV3"}
+	for i, n := range []string{"$GOVN", "$GOVM"} {
+		w.keys[n] = hx.Key(90 + i)
+		w.names[strings.ToLower(strings.TrimPrefix(w.addr(n), "0x"))] = n
+		ret := w.must("RegisterRole "+n, w.exec("$GOV0", ro, "RegisterRole", pb.String(w.addr(n)), pb.String("governanceAdmin"), pb.String(""), pb.String("r")))
+		w.decideBy(proposalOf(ret), true, gen...)
+	}
+	ret := w.must("FreezeAppchain chainA", w.exec("$GOV0", constant.AppchainMgrContractAddr.Address(), "FreezeAppchain", pb.String("chainA"), pb.String("r")))
+	w.extra["$PX"] = proposalOf(ret)
+	ret = w.must("FreezeService chainA:svcA", w.exec("$GOV1", constant.ServiceMgrContractAddr.Address(), "FreezeService", pb.String("chainA:svcA"), pb.String("r")))
+	w.extra["$PY"] = proposalOf(ret)
+	ret = w.must("LogoutRole $GOVN", w.exec("$GOV0", ro, "LogoutRole", pb.String(w.addr("$GOVN")), pb.String("r")))
+	w.decideBy(proposalOf(ret), true, gen...)
+	ret = w.must("FreezeRole $GOVM", w.exec("$GOV0", ro, "FreezeRole", pb.String(w.addr("$GOVM")), pb.String("r")))
+	w.decideBy(proposalOf(ret), true, gen...)
+	if a, b := w.roleStatus("$GOVN"), w.roleStatus("$GOVM"); a != "forbidden" || b != "frozen" {
+		panic("exadmin: $GOVN is " + a + ", $GOVM is " + b)
+	}
+}
+
+// exchain: an appchain whose admin list shrinks through an approved UpdateAppchain.
+func (w *world) exchain() {
+	am := constant.AppchainMgrContractAddr.Address()
+	sm := constant.ServiceMgrContractAddr.Address()
+	for i, n := range []string{"$ADMX", "$EXADM"} {
+		w.keys[n] = hx.Key(80 + i)
+		w.names[strings.ToLower(strings.TrimPrefix(w.addr(n), "0x"))] = n
+	}
+	ret := w.must("RegisterAppchain chainX", w.exec("$ADMX", am, "RegisterAppchain",
+		pb.String("chainX"), pb.String("name-chainX"), pb.Bytes([]byte("pubkey")), pb.String("ETH"), pb.Bytes([]byte("trustroot")),
+		pb.String("0x857133c5C69e6Ce66F7AD46F200B9B3573e77582"), pb.String("desc"), pb.String(validator.HappyRuleAddr), pb.String(""),
+		pb.String(w.addr("$ADMX")+","+w.addr("$EXADM")), pb.String("reason")))
+	w.decide(proposalOf(ret), true)
+	ret = w.must("RegisterService chainX:svcX", w.exec("$EXADM", sm, "RegisterService",
+		pb.String("chainX"), pb.String("svcX"), pb.String("name-svcX"), pb.String("CallContract"), pb.String("intro"), pb.Uint64(1),
+		pb.String(""), pb.String("details"), pb.String("reason")))
+	w.decide(proposalOf(ret), true)
+	ret = w.must("UpdateAppchain chainX", w.exec("$ADMX", am, "UpdateAppchain", pb.String("chainX"), pb.String("name-chainX"), pb.String("desc"),
+		pb.Bytes([]byte("trustroot")), pb.String(w.addr("$ADMX")), pb.String("reason")))
+	if pid := proposalOf(ret); pid != "" {
+		w.decide(pid, true)
+	}
+	if st := w.roleStatus("$EXADM"); st != "none" {
+		panic("exchain: $EXADM still has a role record: " + st)
+	}
+}
 
 func (w *world) sep() {
 	am := constant.AppchainMgrContractAddr.Address()
